@@ -1,3 +1,62 @@
-(* C20 through NFSv4.1: the property theorems, and nothing else. *)
-From VF Require Import Nfs41.Model Nfs41.Dump Nfs41.Spec Nfs41.Proofs.
+(* C20 through NFSv4.1 (lock-owner identity, LOCKT vs LOCK, lockCount
+   gates): the property theorems, and nothing else.  The lock table
+   itself (Set / Test) is VF.LockSet; its theorems are in
+   LockSet/Properties.v. *)
+From VF Require Import Nfs41.Proofs.
 Open Scope N_scope.
+
+(* LOCKT consults the file's table with the same owner identity as LOCK:
+   it reports a conflict exactly when LOCK by that lock-owner would be
+   denied, and names the same conflicting lock. *)
+Theorem lockt_iff_lock41 : forall lt off len key c st cfh sfh o x,
+  find_lowner_key key (c_lowners c) = Some x ->
+  leaf_status cfh = NFS4_OK -> fh_handle cfh = of_handle o ->
+  forall cf,
+    (sr_step (op_lockt lt off len key c st cfh sfh) = Done (denied_of OP_LOCKT (st_clients st) cf)
+     /\ exists s e ty, LS.offset_length_to_start_end off len = Some (s, e) /\ lock_type lt = Some ty
+                       /\ LS.test (pool_locks (of_handle o) (st_pool st)) (LS.mkLock s e (lo_id x) ty) = Some cf)
+    <->
+    (sr_step (op_lock_run lt off len c st cfh sfh o (find (fun lf => lf_owner lf =? lo_id x) (of_lofs o)) (lo_id x) None)
+       = Done (denied_of OP_LOCK (st_clients st) cf)
+     /\ exists s e ty, LS.offset_length_to_start_end off len = Some (s, e) /\ lock_type lt = Some ty
+                       /\ LS.test (pool_locks (of_handle o) (st_pool st)) (LS.mkLock s e (lo_id x) ty) = Some cf).
+Proof. exact lockt_iff_lock. Qed.
+Print Assumptions lockt_iff_lock41.
+
+(* The conflict reported to a lock-owner is never one of the locks held
+   by its own lock-owner object: an owner's own locks never block it. *)
+Theorem own_locks_never_conflict41 : forall locks q cf,
+  LS.test locks q = Some cf -> LS.lowner cf <> LS.lowner q.
+Proof. exact denied_lock_has_other_owner. Qed.
+Print Assumptions own_locks_never_conflict41.
+
+(* lockCount gate: FREE_STATEID on a lock state ID with locks held answers
+   NFS4ERR_LOCKS_HELD and changes nothing (it does not panic). *)
+Theorem free_stateid_locks_held_gate : forall s c st cfh sfh o lf,
+  s_hi s = 0 -> find_lofs (s_lo s) (c_oofs c) = Some (o, lf) ->
+  compare_seq (s_seq s) (lf_seq lf) = NFS4_OK -> (0 < lf_count lf)%Z ->
+  op_free_stateid s c st cfh sfh = done st cfh sfh (RStatus OP_FREE_STATEID ERR_LOCKS_HELD).
+Proof. exact free_stateid_locks_held. Qed.
+Print Assumptions free_stateid_locks_held_gate.
+
+(* Non-vacuity: a lock-owner that holds [0,10) exclusively tests and
+   re-locks its own range (granted), another owner is denied by it; after
+   CLOSE the table is empty. *)
+Definition lock_events : list event :=
+  [ ESolo 1 (SExchangeId 0 10); ESolo 2 (SCreateSession 1 3);
+    ESeqBegin 3 3 0 1 true [OPutRootFH; OOpen 0 3 0 HowUnchecked (ClaimNull 1);
+                            OLock 2 0 10 (LockerNew sid_current 1)];
+    ESection 3 FsOk; ESection 3 (FsLeaf 1); ESection 3 FsOk; ESection 3 FsOk; ESection 3 FsOk;
+    ESeqBegin 4 3 0 2 true [OPutFH 1; OLockT 2 0 10 1; OLockT 2 0 10 2;
+                            OLock 2 5 10 (LockerNew (mkSid 0 1 0) 1)];
+    ESection 4 FsOk; ESection 4 FsOk; ESection 4 FsOk; ESection 4 FsOk; ESection 4 FsOk ].
+
+Example holder_is_not_denied_other_owner_is :
+  let r := run (init cfg0 1000) lock_events in
+  last (snd r) (OLeafClose 0 m0)
+  = OReply 4 (mkReply ERR_DENIED [RSequenceOk 3 2 0 1; RStatus OP_PUTFH NFS4_OK;
+                                  RStatus OP_LOCKT NFS4_OK;             (* the holder's own test *)
+                                  RDenied OP_LOCKT 0 10 2 1 1])         (* another owner: denied by client 1, owner 1 *)
+  /\ map (fun c => map lo_key (c_lowners c)) (st_clients (fst r)) = [[1]]
+  /\ st_panic (fst r) = false.
+Proof. vm_compute. repeat split; reflexivity. Qed.
